@@ -49,7 +49,9 @@ pub struct Sc {
     #[serde(default)]
     pub near_queries: Vec<NearQuery>,
     /// how the flattened layout is turned into the UV chart of the companion round trip:
-    /// 0 as it is, 1 v axis flipped (image coordinates), 2 u and v exchanged, 3 rotated and scaled
+    /// 0 as it is, 1 v axis flipped (image coordinates), 2 u and v exchanged, 3 rotated and scaled,
+    /// 4 chart vertices in reverse order, 5 three chart vertices of its own per face, 6 like 5 with
+    /// the mesh built by `Mesh::new_with_options(.., delete_degenerate = true, Some(chart))`
     #[serde(default)]
     pub chart: u8,
 }
@@ -281,6 +283,18 @@ fn procrustes_residual(a: &[[f64; 2]], b: &[[f64; 2]]) -> f64 {
     worst
 }
 
+/// The layout positions of the vertices that some face refers to (where a vertex no face refers
+/// to is put is nobody's business).
+fn referenced(m: &M, uv: &[[f64; 2]]) -> Vec<[f64; 2]> {
+    let mut used = vec![false; m.v.len()];
+    for f in &m.f {
+        for &i in f {
+            used[i as usize] = true;
+        }
+    }
+    uv.iter().zip(used.iter()).filter(|(_, &u)| u).map(|(p, _)| *p).collect()
+}
+
 /// The affine map that turns the flattened layout into the UV chart used by the companion.
 fn chart_apply(chart: u8, p: [f64; 2]) -> [f64; 2] {
     match chart {
@@ -408,6 +422,35 @@ impl Property for C20 {
             }
             label.push_str("+scaled");
         }
+        // vertices no face refers to are legal (a dummy entry 0 left by a one-based file format, a
+        // point kept for reference): they get a finite position like every other vertex and must
+        // not disturb the rest
+        if kind != Kind::Reject && rng.chance(0.12) {
+            let k = 1 + rng.below(2);
+            let extra: Vec<[f64; 3]> = (0..k)
+                .map(|_| {
+                    let (a, b) = (mesh.v[rng.below(mesh.v.len())], mesh.v[rng.below(mesh.v.len())]);
+                    let w = rng.uniform(0.2, 0.8);
+                    add(scale(a, w), scale(b, 1.0 - w))
+                })
+                .collect();
+            let at = match rng.below(3) {
+                0 => 0,
+                1 => mesh.v.len(),
+                _ => rng.below(mesh.v.len() + 1),
+            };
+            for (i, p) in extra.iter().enumerate() {
+                mesh.v.insert(at + i, *p);
+            }
+            for f in mesh.f.iter_mut() {
+                for x in f.iter_mut() {
+                    if *x as usize >= at {
+                        *x += k as u32;
+                    }
+                }
+            }
+            label.push_str(if at == 0 { "+unreferenced-vertex-0" } else { "+unreferenced-vertices" });
+        }
         let size = mesh.size();
         let np = if kind == Kind::Reject { 1 } else { 2 + rng.below(2) };
         let mut poses = Vec::new();
@@ -492,7 +535,7 @@ impl Property for C20 {
                 near_queries.push(NearQuery { face, bc, offset });
             }
         }
-        let chart = if rng.chance(0.5) { 1 + rng.below(5) as u8 } else { 0 };
+        let chart = if rng.chance(0.5) { 1 + rng.below(6) as u8 } else { 0 };
         Sc { label, kind, mesh, poses, uv_queries, near_queries, chart }
     }
 
@@ -562,7 +605,7 @@ impl Property for C20 {
                                 layout.iter().rev().map(chart_pt).collect(),
                                 pm.f.iter().map(|f| [nv - 1 - f[0], nv - 1 - f[1], nv - 1 - f[2]]).collect(),
                             ),
-                            5 => {
+                            5 | 6 => {
                                 let mut v = Vec::new();
                                 let mut f = Vec::new();
                                 for face in &pm.f {
@@ -578,7 +621,13 @@ impl Property for C20 {
                         };
                         let map = UvMapping::new(chart_v, chart_f).map_err(|e| e.to_string())?;
                         let verts: Vec<Point3> = pm.v.iter().map(|p| Point3::new(p[0], p[1], p[2])).collect();
-                        let with_uv = Mesh::new_with_uv(verts, pm.f.clone(), false, Some(map));
+                        // the clean-up options of `new_with_options` are about the surface; the
+                        // surface here needs none of them, and the chart must come through as given
+                        let with_uv = if sc.chart == 6 {
+                            Mesh::new_with_options(verts, pm.f.clone(), false, false, true, Some(map)).map_err(|e| e.to_string())?
+                        } else {
+                            Mesh::new_with_uv(verts, pm.f.clone(), false, Some(map))
+                        };
                         let mut to_3d = Vec::new();
                         let mut back = Vec::new();
                         for q in &sc.uv_queries {
@@ -876,7 +925,7 @@ impl Property for C20 {
                 for (pi, other) in row.iter().enumerate().skip(1) {
                     if let Some(o) = other {
                         stats.bump("invariance:same-decisions-other-pose");
-                        let rho = procrustes_residual(base, o);
+                        let rho = procrustes_residual(&referenced(&sc.mesh, base), &referenced(&sc.mesh, o));
                         stats.max_f("same-decisions-other-pose:rho/size", rho / size);
                         if rho > 1e-8 * size {
                             out.push(Violation::new("pose-dependent-layout", flatten, format!("same decisions, pose 0 vs pose {}: layouts differ by {:.3e} after the best rigid motion (size {:.3e})", pi, rho, size), &[vi]));
@@ -898,7 +947,7 @@ impl Property for C20 {
                 }
                 if let Some(Some(o)) = row.first() {
                     stats.bump("invariance:other-decisions-same-pose");
-                    let rho = procrustes_residual(base, o);
+                    let rho = procrustes_residual(&referenced(&sc.mesh, base), &referenced(&sc.mesh, o));
                     let dd = delta.max(distortion(&posed0, o));
                     stats.max_f(&format!("{:?}:other-decisions:rho/size", sc.kind), rho / size);
                     stats.max_f(&format!("{:?}:other-decisions:rho/(size*(distortion+1e-4))", sc.kind), rho / (size * (dd + 1e-4)));
